@@ -197,6 +197,11 @@ Proof.
   intros H Hin E. assert (has_ct c ofs = true) by (apply has_ct_In; exists o; split; assumption). congruence.
 Qed.
 
+Lemma find_ct_order (P : string -> bool) :
+  List.find P ct_order = if P ct_reserved then Some ct_reserved else if P ct_spot then Some ct_spot
+                         else if P ct_od then Some ct_od else None.
+Proof. reflexivity. Qed.
+
 (* ------------------------------------------------------------------ the guard of the two partial theorems *)
 (* an available compatible reserved offering only with requirements that admit neither spot nor on-demand, i.e. the
    scheduler pinned the NodeClaim to its reservation (FinalizeScheduling) *)
@@ -274,11 +279,13 @@ Qed.
 
 Lemma spot_to_spot_not_delete flag n r opts cp : spot_to_spot flag n r opts cp <> Delete.
 Proof.
-  unfold spot_to_spot. destruct flag; simpl; [|discriminate].
-  destruct (remove_by_price_mv (pin_spot r) cp (its_compatible (pin_spot r) opts)) as [l ok].
-  destruct ok; simpl; [|discriminate].
-  destruct l as [|a l]. Show. all: admit. Admitted. Lemma xx flag n r (opts:list itype) (cp:price) (a:itype) (l:list itype): True. Proof. exact I.  destruct (1 <? n)%nat; [discriminate|].
-  destruct (length (a :: l) <? min_spot_to_spot)%nat; [discriminate|]. destruct (has_min_values (pin_spot r)); discriminate.
+  unfold spot_to_spot, remove_by_price_mv. destruct flag; simpl; [|discriminate].
+  set (l := remove_by_price (pin_spot r) cp (its_compatible (pin_spot r) opts)). clearbody l.
+  destruct (snd (sat_min_values l (pin_spot r))); simpl; [|discriminate].
+  intros H. destruct l as [|a l']; [discriminate H|].
+  destruct (1 <? n)%nat; [discriminate H|].
+  destruct (length (a :: l') <? min_spot_to_spot)%nat; [discriminate H|].
+  destruct (has_min_values (pin_spot r)); discriminate H.
 Qed.
 
 Lemma compute_counts flag cands s :
@@ -288,13 +295,16 @@ Lemma compute_counts flag cands s :
   | Replace _ _ => length (s_new s) = 1%nat
   end /\ (compute flag cands s <> NoOp -> all_scheduled s = true).
 Proof.
-  unfold compute. destruct (all_scheduled s); simpl; [|split; [exact I|congruence]].
+  unfold compute, remove_by_price_mv. destruct (all_scheduled s); cbn [negb]; [|split; [exact I|congruence]].
   split; [|reflexivity].
   destruct (s_new s) as [|nc [|nc2 t]]; try exact I; [reflexivity|].
-  destruct (forallb _ cands && _).
-  - destruct (spot_to_spot _ _ _ _ _) eqn:E; [exact I| |reflexivity].
+  destruct (forallb (fun c => String.eqb (c_ct c) ct_spot) cands && has (get (nc_reqs nc) ct_key) ct_spot).
+  - destruct (spot_to_spot flag (length cands) (nc_reqs nc) (nc_opts nc) (Some (sum_prices cands))) eqn:E; [exact I| |reflexivity].
     exfalso. exact (spot_to_spot_not_delete _ _ _ _ _ E).
-  - destruct (remove_by_price_mv _ _ _) as [opts ok]. destruct ok; simpl; [|exact I]. destruct opts; [exact I|reflexivity].
+  - cbv beta iota zeta.
+    set (l := remove_by_price (nc_reqs nc) (Some (sum_prices cands)) (nc_opts nc)). clearbody l.
+    destruct (snd (sat_min_values l (nc_reqs nc))); cbn [negb]; [|exact I].
+    destruct l; [exact I|reflexivity].
 Qed.
 
 (* ------------------------------------------------------------------ T1: replacement strictly cheaper (partial) *)
@@ -317,7 +327,7 @@ Proof.
       { destruct (has_ct ct_reserved (usable (nc_reqs nc) it)) eqn:E; [|reflexivity].
         apply has_ct_In in E as (o' & Ho' & Hc'). destruct (Hgd it o' Hin Ho' Hc'). congruence. }
       assert (Hsp : has_ct ct_spot (usable (nc_reqs nc) it) = true) by (apply has_ct_In; exists o; split; assumption).
-      unfold ct_order in Hp. simpl in Hp. rewrite Hres, Hsp in Hp. simpl in Hp. apply Z.ltb_lt in Hp.
+      rewrite find_ct_order, Hres, Hsp in Hp. cbv iota in Hp. unfold plt in Hp. apply Z.ltb_lt in Hp.
       assert (Hf : List.In o (filter (fun o => String.eqb ct_spot (o_ct o)) (usable (nc_reqs nc) it))).
       { apply filter_In. split; [exact Ho|]. rewrite Hspot. apply String.eqb_refl. }
       pose proof (max_price_ge _ _ Hf). lia.
@@ -351,7 +361,7 @@ Proof.
       { destruct (has_ct ct_spot (usable (nc_reqs nc) it)) eqn:E; [|reflexivity].
         apply has_ct_In in E as (o' & Ho' & Hc'). pose proof (usable_ct _ it o' Hrk Ho') as H. rewrite Hc' in H. congruence. }
       assert (Hodc : has_ct ct_od (usable (nc_reqs nc) it) = true) by (apply has_ct_In; exists o; split; assumption).
-      unfold ct_order in Hp. simpl in Hp. rewrite Hres, Hsp, Hodc in Hp. simpl in Hp. apply Z.ltb_lt in Hp.
+      rewrite find_ct_order, Hres, Hsp, Hodc in Hp. cbv iota in Hp. unfold plt in Hp. apply Z.ltb_lt in Hp.
       assert (Hf : List.In o (filter (fun o => String.eqb ct_od (o_ct o)) (usable (nc_reqs nc) it))).
       { apply filter_In. split; [exact Ho|]. rewrite Hod. apply String.eqb_refl. }
       pose proof (max_price_ge _ _ Hf). lia.
@@ -449,7 +459,9 @@ Qed.
 (* Emptiness runs no simulation (by design: the property defines emptiness by eviction costs). A node whose pods all
    have eviction cost <= 0 is selected; this is the boundary: deletion cost -2^27 gives cost exactly 0. *)
 Lemma emptiness_zero_cost_boundary_l :
-  eviction_cost (-134217728) 0 = 0 /\ eviction_cost (-134217727) 0 = 1 /\ eviction_cost 0 0 = two27 /  is_empty (mkCand "n" "c" ct_od "z" None [] [eviction_cost (-134217728) 0]) = true /  is_empty (mkCand "n" "c" ct_od "z" None [] [eviction_cost (-134217727) 0]) = false.
+  eviction_cost (-134217728) 0 = 0 /\ eviction_cost (-134217727) 0 = 1 /\ eviction_cost 0 0 = two27 /\
+  is_empty (mkCand "n" "c" ct_od "z" None [] [eviction_cost (-134217728) 0]) = true /\
+  is_empty (mkCand "n" "c" ct_od "z" None [] [eviction_cost (-134217727) 0]) = false.
 Proof. vm_compute. repeat split; reflexivity. Qed.
 
 (* ------------------------------------------------------------------ T6: multi-node and single-node lift *)
@@ -531,10 +543,10 @@ Proof.
             first_n_go fuel flag cs sims lo hi last = Some (k, d) -> (2 <= k)%nat).
   { induction fuel as [|f IH]; intros lo hi last Hlo Hl; simpl.
     - intros E. eapply Hl, E.
-    - destruct (hi <? lo); [intros E; eapply Hl, E|].
+    - destruct (hi <? lo) eqn:Ehl; [intros E; eapply Hl, E|]. apply Z.ltb_ge in Ehl.
       assert (Hmid : 1 <= (lo + hi) / 2) by (apply Z.div_le_lower_bound; lia).
-      destruct (multi_probe _ _ _).
-      + apply IH; [lia|]. intros k0 d0 [= <- <-]. lia.
+      destruct (multi_probe _ _ _) as [d1|].
+      + apply IH; [lia|]. intros k1 d2 [= <- <-]. lia.
       + apply IH; [lia|exact Hl]. }
   intros fuel. apply G; [lia|]. intros k0 d0 E. discriminate.
 Qed.
@@ -597,14 +609,14 @@ Proof.
   unfold s2s_ok_b, s2s_ok. split.
   - intros H Hall Hhas.
     assert (Ha : forallb (fun c => String.eqb c ct_spot) cts = true) by (apply forallb_forall; intros c Hc; apply String.eqb_eq, Hall, Hc).
-    rewrite Ha, Hhas in H. simpl in H. apply andb_true_iff in H as [Hf Hn]. split; [exact Hf|].
-    intros H1. rewrite H1 in Hn. simpl in Hn. apply Nat.leb_le, Hn.
+    rewrite Ha, Hhas in H. cbn [negb orb andb] in H. apply andb_true_iff in H as [Hf Hn]. split; [exact Hf|].
+    intros H1. rewrite H1, Nat.eqb_refl in Hn. cbn [negb orb] in Hn. apply Nat.leb_le, Hn.
   - intros H. destruct (forallb (fun c => String.eqb c ct_spot) cts) eqn:Ea; [|reflexivity].
-    destruct (has (get r ct_key) ct_spot) eqn:Eh; [|reflexivity]. simpl.
+    destruct (has (get r ct_key) ct_spot) eqn:Eh; [|reflexivity]. cbn [negb orb andb].
     assert (Hall : forall c, List.In c cts -> c = ct_spot).
     { intros c Hc. rewrite forallb_forall in Ea. apply String.eqb_eq, Ea, Hc. }
-    destruct (H Hall eq_refl) as [Hf Hn]. rewrite Hf. simpl.
-    destruct (Nat.eqb (length cts) 1) eqn:E1; [|reflexivity]. simpl. apply Nat.leb_le, Hn, Nat.eqb_eq, E1.
+    destruct (H Hall eq_refl) as [Hf Hn]. rewrite Hf. cbn [andb].
+    destruct (Nat.eqb (length cts) 1) eqn:E1; [|reflexivity]. cbn [negb orb]. apply Nat.leb_le, Hn, Nat.eqb_eq, E1.
 Qed.
 
 Lemma cheaper_cmd_b_iff cat cp c : cheaper_cmd_b cat cp c = true <-> cheaper_cmd cat cp c.
